@@ -342,6 +342,8 @@ func init() {
 		}
 		if tier != "thorough" {
 			js = append(js, sym.Job{Pkg: "seat_manager", Harness: "Harness_SM_Next", Args: []int{5}})
+			// a 6-seat slice (every seat occupied): the smallest table on which KF-C08-LATEJOIN-BEHIND-BB shows
+			js = append(js, sym.Job{Pkg: "seat_manager", Harness: "Harness_SM_NextOcc", Args: []int{6, 63}})
 		}
 		for mx := 2; mx <= maxSeats; mx++ {
 			js = append(js, sym.Job{Pkg: "seat_manager", Harness: "Harness_SM_Next", Args: []int{mx}})
@@ -361,7 +363,7 @@ func init() {
 		return js
 	}
 	smBounds := func(tier string) []string {
-		mx := "2..4 (Next also on 5 seats)"
+		mx := "2..4 (Next also on 5 seats, and on 6 seats with every seat occupied)"
 		if tier == "thorough" {
 			mx = "2..6"
 		}
